@@ -64,8 +64,11 @@ def gen(rng, n, tier):
                     if w == "name": a.append("nope"); res.append(-1)
                     elif w == "range": a.append(k); res.append(k)
                     elif w == "neg": a.append(-1); res.append(-1)
-                    elif w == "dup": a.append(a[0]); res.append(res[0])
+                    elif w == "dup":       # the same axis once more, half of the time spelled the other way (index vs name)
+                        other = names[cur[res[0]]] if not isinstance(a[0], str) else res[0]
+                        a.append(other if rng.random() < 0.5 else a[0]); res.append(res[0])
                     else: a, res = [], []
+                a = [(["np.int64", x] if isinstance(x, int) and not bad and rng.random() < 0.25 else x) for x in a]   # an index as it comes out of np.arange / np.argmax
                 ops.append(["project", res]); args.append(a)
                 if not bad: cur = [cur[j] for j in sorted(sel)]
             elif r < 0.86:
@@ -97,6 +100,7 @@ def impl(case):
     cur = h
     kept_cols = list(range(h.ndim))
     for op, a in zip(d["ops"], d["args"]):
+        a = [(np.int64(x[1]) if isinstance(x, list) else x) for x in a]
         try:
             if op[0] == "project":
                 r = cur.projection(*a)
